@@ -80,9 +80,9 @@ func runC18(args []string) int {
 
 	type pair struct{ src, dst string }
 	enh := map[int][]pair{
-		int(fit.MesgNumSession): {{"AvgSpeed", "EnhancedAvgSpeed"}, {"MaxSpeed", "EnhancedMaxSpeed"}, {"AvgAltitude", "EnhancedAvgAltitude"}, {"MaxAltitude", "EnhancedMaxAltitude"}, {"MinAltitude", "EnhancedMinAltitude"}},
-		int(fit.MesgNumLap):     {{"AvgSpeed", "EnhancedAvgSpeed"}, {"MaxSpeed", "EnhancedMaxSpeed"}, {"AvgAltitude", "EnhancedAvgAltitude"}, {"MaxAltitude", "EnhancedMaxAltitude"}, {"MinAltitude", "EnhancedMinAltitude"}},
-		int(fit.MesgNumSegmentLap): {{"AvgAltitude", "EnhancedAvgAltitude"}, {"MaxAltitude", "EnhancedMaxAltitude"}, {"MinAltitude", "EnhancedMinAltitude"}},
+		int(fit.MesgNumSession):      {{"AvgSpeed", "EnhancedAvgSpeed"}, {"MaxSpeed", "EnhancedMaxSpeed"}, {"AvgAltitude", "EnhancedAvgAltitude"}, {"MaxAltitude", "EnhancedMaxAltitude"}, {"MinAltitude", "EnhancedMinAltitude"}},
+		int(fit.MesgNumLap):          {{"AvgSpeed", "EnhancedAvgSpeed"}, {"MaxSpeed", "EnhancedMaxSpeed"}, {"AvgAltitude", "EnhancedAvgAltitude"}, {"MaxAltitude", "EnhancedMaxAltitude"}, {"MinAltitude", "EnhancedMinAltitude"}},
+		int(fit.MesgNumSegmentLap):   {{"AvgAltitude", "EnhancedAvgAltitude"}, {"MaxAltitude", "EnhancedMaxAltitude"}, {"MinAltitude", "EnhancedMinAltitude"}},
 		int(fit.MesgNumRecord):       {{"Altitude", "EnhancedAltitude"}, {"Speed", "EnhancedSpeed"}},
 		int(fit.MesgNumSegmentPoint): {{"Altitude", "EnhancedAltitude"}},
 	}
@@ -503,7 +503,6 @@ func runC18(args []string) int {
 	}
 	return r.finish()
 }
-
 
 func markerOfMsg(v reflect.Value) string {
 	var sb strings.Builder
